@@ -144,11 +144,18 @@ Section Lda.
   Definition conj_mode (sym herm : bool) (trans : Z) : bool :=
     (sym && (trans =? 2)%Z) || (negb sym && (trans =? 1)%Z).
 
+  Definition trans_valid (trans : Z) : bool := (trans =? 0)%Z || (trans =? 1)%Z || (trans =? 2)%Z.
+  (* storage = 'H' if adjoint_mode else 'N' *)
+  Definition storage_of (am : bool) : Z := if am then 2%Z else 0%Z.
+  (* the two branches of `solve`: (storage, matrix 0 = self.A / 2 = self.A.conj().T, database 0 = x_stored,b_stored /
+     1 = xadj_stored,badj_stored, trans of the inner solve) *)
+  Definition dispatch_table : list (Z * Z * Z * Z) := [(0, 0, 0, 0); (2, 2, 1, 2)]%Z.
+
   Record sres := { r_cplx : bool; r_x : list (vec F); r_call : option call }.
 
   Definition solve (st : state) (cplx_rhs isvec : bool) (RHS : list (vec F)) (X0 : option (list (vec F))) (trans : Z)
     : state * (err + sres) :=
-    if negb ((trans =? 0)%Z || (trans =? 1)%Z || (trans =? 2)%Z) then (st, inl ETypeError)
+    if negb (trans_valid trans) then (st, inl ETypeError)
     else match s_A st, s_sym st, s_herm st with
     | Some (cplxA, A), Some sym, Some herm =>
         let am := adjoint_mode sym herm trans in
